@@ -231,15 +231,24 @@ pub fn cmd_matrix(a: &[String]) {
             }
         }
         "c11" => {
-            // (a) every hub message × sender while paused, with and without legacy entries
-            for legacy in [false, true] {
+            // (a) every hub message × sender while paused, with and without legacy entries, and with
+            // an ownership nomination pending (AcceptOwnership is itself blocked by the pause)
+            for (legacy, pending) in [(false, false), (true, false), (false, true), (true, true)] {
                 for op in genesis(&[201, 202, 203]) {
                     out.step(&op);
                 }
                 for op in evolve() {
                     out.step(&op);
                 }
+                if pending {
+                    out.step(&tx(OWNER, HUB, Call::Hub(HubMsg::SetOwner(NOMINEE))));
+                }
                 out.step(&tx(OWNER, HUB, Call::Hub(HubMsg::UParams(None, None, None, None, Some(true), None))));
+                if pending {
+                    // refused (the nominee has no authority yet); if it were not, the cells below
+                    // still run against a paused hub
+                    out.step(&tx(NOMINEE, HUB, Call::Hub(HubMsg::UParams(None, None, None, None, Some(true), None))));
+                }
                 if legacy {
                     out.step(&Op::Env(EnvOp::Legacy(5, 1, 42)));
                     out.step(&Op::Env(EnvOp::Legacy(6, 1, 17)));
@@ -258,6 +267,7 @@ pub fn cmd_matrix(a: &[String]) {
                 // un-pause attempts and migration steps
                 for p in [None, Some(false), Some(true)] {
                     out.cell(&tx(OWNER, HUB, Call::Hub(HubMsg::UParams(None, None, None, None, p, None))));
+                    out.cell(&tx(NOMINEE, HUB, Call::Hub(HubMsg::UParams(None, None, None, None, p, None))));
                 }
                 for l in [Some(1u32), Some(2), None] {
                     out.step(&tx(5, HUB, Call::Hub(HubMsg::Migrate(l))));
@@ -314,7 +324,14 @@ pub fn cmd_matrix(a: &[String]) {
             }
             out.step(&Op::Save);
             let decs: [u128; 5] = [0, 1, D, D + 1, 3 * D];
-            // hub UpdateParams: 2^6 presence patterns × value classes
+            // hub UpdateParams: 2^6 presence patterns × value classes, from the genesis parameters
+            // and from a state where every parameter has been moved off its default
+            for base in 0..2 {
+            if base == 1 {
+                out.step(&tx(OWNER, HUB, Call::Hub(HubMsg::UParams(Some(77), Some(333), Some(D / 3), Some(D / 2), None, Some(2)))));
+                out.step(&tx(OWNER, DISP, Call::Disp(DispMsg::UConfig(None, None, None, Some(2), Some(8), Some(D / 7)))));
+                out.step(&Op::Save);
+            }
             for mask in 0..64u32 {
                 for vi in 0..decs.len() {
                     let e = if mask & 1 != 0 { Some(10 + vi as u64) } else { None };
@@ -335,17 +352,6 @@ pub fn cmd_matrix(a: &[String]) {
                     }
                 }
             }
-            // hub UpdateConfig: 2^7 presence patterns
-            for mask in 0..128u32 {
-                let mut f = [None; 7];
-                let vals = [DISP, REG, BSEI, STSEI, 9, 8, 7];
-                for i in 0..7 {
-                    if mask & (1 << i) != 0 {
-                        f[i] = Some(vals[i]);
-                    }
-                }
-                out.cell(&tx(OWNER, HUB, Call::Hub(HubMsg::UConfig(f))));
-            }
             // dispatcher UpdateConfig: 2^6 × value classes
             for mask in 0..64u32 {
                 for vi in 0..decs.len() {
@@ -357,6 +363,18 @@ pub fn cmd_matrix(a: &[String]) {
                     let kr = if mask & 32 != 0 { Some(decs[vi]) } else { None };
                     out.cell(&tx(OWNER, DISP, Call::Disp(DispMsg::UConfig(h, r, sd, bd, k, kr))));
                 }
+            }
+            }
+            // hub UpdateConfig: 2^7 presence patterns
+            for mask in 0..128u32 {
+                let mut f = [None; 7];
+                let vals = [DISP, REG, BSEI, STSEI, 9, 8, 7];
+                for i in 0..7 {
+                    if mask & (1 << i) != 0 {
+                        f[i] = Some(vals[i]);
+                    }
+                }
+                out.cell(&tx(OWNER, HUB, Call::Hub(HubMsg::UConfig(f))));
             }
             for mask in 0..8u32 {
                 let h = if mask & 1 != 0 { Some(HUB) } else { None };
